@@ -27,7 +27,7 @@ RULE = ('(a) collector-produced snapshots of generated frames (friendly + hostil
         'later poll and send calls; non-trivial = message compared field by field; distinct by canonical case')
 ASSUMPTIONS = ['integers in attributes stay within int64', 'code points that UTF-8 cannot encode may be replaced by a '
                'short placeholder; every other character must arrive unchanged']
-REQUIRE = {'clock_set_back_cases': 10, 'tracepoint_arguments_given_as_numbers': 30, 'messages_compared': 800, 'fields_compared': 20000, 'collector_snapshots': 300, 'surrogate_cases': 40,
+REQUIRE = {'tracepoint_arguments_given_as_none': 10, 'clock_set_back_cases': 10, 'tracepoint_arguments_given_as_numbers': 30, 'messages_compared': 800, 'fields_compared': 20000, 'collector_snapshots': 300, 'surrogate_cases': 40,
            'sequence_attribute_cases': 40, 'auth_sessions': 30, 'requests_with_metadata_checked': 100,
            'hostile_provider_sessions': 5}
 import enum  # noqa: E402
@@ -259,6 +259,11 @@ def case_collector(seed, out, spec, wd):
         args['fire_count'] = r.pick([3, -1, 1])
         args['fire_period'] = r.pick([0, 0, 1000])
         out.count('tracepoint_arguments_given_as_numbers')
+    elif r.chance(0.2):
+        # "use the default", as code that passes an optional setting through writes it: None (the limiter reads it as
+        # its default; on the wire, where a map value cannot be unset, it travels in its text form like the numbers)
+        args[r.pick(['fire_count', 'fire_period', 'stack_type'])] = None
+        out.count('tracepoint_arguments_given_as_none')
     watches = r.sample(['%s' % names[0], 'len(str(%s))' % names[-1], '1/0', 'nope', '"\\ud800x"', '[%s]' % names[0]],
                        r.randrange(0, 4))
     case = FrameCase(wd, names, values, depth=r.pick([1, 2, 4]), method=r.chance(0.3))
